@@ -603,6 +603,11 @@ def r04_9(ctx: Ctx):
     observed, so the reported best is not the best value the objective returned."""
     out = []
     for o in c02.r02_12(ctx):
+        if o.status != OK and ".LocalDeme." in "." + (o.subject or ""):
+            # the property exempts the local optimiser from "the reported best equals the best value observed"
+            o.rule, o.status, o.detail, o.trivial = "R04.9", OK, "LocalDeme's recorded values are outside this property (C02 / C13 decide them)", True
+            out.append(o)
+            continue
         o.rule = "R04.9"
         out.append(o)
     return out
